@@ -241,7 +241,7 @@ def run(run):
     rng = run.rng("c13")
     maxlen = 2 if quick else 3
     run.rule = ("every string up to length %d over a %d-symbol quoting alphabet (quotes, backslash, $, backquote, !, blanks, newline, CR, "
-                "control characters, multi-byte, leading - ~ # =, glob and operator characters) plus random strings to length 40, as "
+                "control characters - additionally every byte 0x01-0x1f, 0x7f and U+0085 alone and next to a letter, digit, backslash -, multi-byte, leading - ~ # =, glob and operator characters) plus random strings to length 40, as "
                 "scalar value, array element, associative key and value, alias body and trap command; 17 producers run by brush, each "
                 "text re-read by brush and by bash through eval; recovered bytes must equal the injected bytes. "
                 "non-trivial = distinct values whose every producer x reader round trip succeeded" % (maxlen, len(ALPHABET)))
@@ -254,6 +254,11 @@ def run(run):
     for _ in range(int((150 if quick else 3000) * scale)):
         n = rng.randint(3, 40)
         vals.append("".join(rng.choice(ALPHABET) for _ in range(n)).encode("utf-8"))
+    # every control character (each has its own spelling inside $'...': \a \b \e \f \v \t \n \r, octal, \cX) alone and next to a
+    # letter / digit / itself (a digit after an octal or hex escape must not be swallowed by it)
+    for c in list(range(1, 32)) + [127, 0x80 + 0x42]:
+        ch = chr(c).encode("utf-8") if c < 128 else "\u0085".encode("utf-8")
+        vals += [ch, b"a" + ch, ch + b"0", ch + b"a", ch + ch, ch + b"E", b"\\" + ch]
     batches = [vals[k:k + BATCH] for k in range(0, len(vals), BATCH)]
     run.count("values", len(vals))
     run.max_violations = 30
